@@ -104,8 +104,8 @@ Proof.
   intros leaky s e s' I St.
   destruct e; cbn in St.
   - (* EAlloc *)
-    destruct (cs s t) eqn:C; try discriminate. inversion St; subst; clear St.
-    constructor; go I.
+    destruct (cs s t) eqn:C; try discriminate. destruct (open_blocked s k); try discriminate. inversion St; subst; clear St.
+    destruct k; constructor; go I.
   - (* ERegister *)
     destruct (cs s t) eqn:C; try discriminate.
     destruct (handlers s id) eqn:Hh; inversion St; subst; clear St.
@@ -113,7 +113,7 @@ Proof.
     + constructor; go I.
   - (* EWrite *)
     destruct (cs s t) eqn:C; try discriminate.
-    destruct ok; [|destruct leaky]; inversion St; subst; clear St.
+    destruct ok; [|destruct (is_leaky leaky)]; inversion St; subst; clear St.
     + constructor; go I.
     + unfold finish. destruct k; constructor; go I.
     + unfold finish. destruct k; constructor; go I.
@@ -249,11 +249,11 @@ Ltac go2 I NL :=
   repeat match goal with H : handlers _ ?k = Some ?t |- _ => learn (NL k t H) end;
   sat I; rw_cs; cbn in *; inj; try congruence; try discriminate; try tauto; eauto.
 
-Lemma step_inv_nl : forall s e s', inv s -> inv_nl s -> step false s e = Some s' -> inv_nl s'.
+Lemma step_inv_nl : forall s e s', inv s -> inv_nl s -> step VNow s e = Some s' -> inv_nl s'.
 Proof.
   intros s e s' I NL St. unfold inv_nl in *.
   destruct e; cbn in St.
-  - destruct (cs s t) eqn:C; try discriminate. inversion St; subst; clear St. go2 I NL.
+  - destruct (cs s t) eqn:C; try discriminate. destruct (open_blocked s k); try discriminate. inversion St; subst; clear St. destruct k; go2 I NL.
   - destruct (cs s t) eqn:C; try discriminate.
     destruct (handlers s id) eqn:Hh; inversion St; subst; clear St.
     + unfold finish. destruct k; go2 I NL.
@@ -283,15 +283,15 @@ Proof.
     destruct (rcv_locked s); inversion St; subst; clear St. go2 I NL.
 Qed.
 
-Lemma runP_inv_nl : forall P evs s s', inv s -> inv_nl s -> runP P false evs s = Some s' -> inv_nl s'.
+Lemma runP_inv_nl : forall P evs s s', inv s -> inv_nl s -> runP P VNow evs s = Some s' -> inv_nl s'.
 Proof.
   induction evs as [|e r IH]; cbn; intros s s' I NL R.
   - inversion R; subst; exact NL.
-  - destruct (P s e); try discriminate. destruct (step false s e) eqn:E; try discriminate.
+  - destruct (P s e); try discriminate. destruct (step VNow s e) eqn:E; try discriminate.
     eapply IH; [eapply step_inv; eassumption | eapply step_inv_nl; eassumption | exact R].
 Qed.
 
-Lemma reachableP_inv_nl : forall P seed s, reachableP P false seed s -> inv_nl s.
+Lemma reachableP_inv_nl : forall P seed s, reachableP P VNow seed s -> inv_nl s.
 Proof.
   intros P seed s [evs R]. eapply runP_inv_nl; [apply inv_init | | exact R].
   intros k t H. cbn in H. discriminate.
@@ -299,7 +299,7 @@ Qed.
 
 (* after a call has returned, whatever the way, no handler of it is left in the table *)
 Lemma slot_released : forall seed s t k w id r,
-  reachable false seed s -> cs s t = CDone k w id r -> forall i, handlers s i <> Some t.
+  reachable VNow seed s -> cs s t = CDone k w id r -> forall i, handlers s i <> Some t.
 Proof.
   intros seed s t k w id r R C i X. pose proof (reachableP_inv_nl _ _ _ R i t X) as L. rewrite C in L. discriminate.
 Qed.
@@ -349,116 +349,143 @@ Proof.
   - destruct (rcv_locked s) eqn:L; [left; auto|]. right. exists EResume. cbn. rewrite Dd, L. eauto.
 Qed.
 
-(* ------------------------------------------------------------------ C19: the receive gate *)
+(* ------------------------------------------------------------------ C19: the receive gate (code as it is now) *)
 
 Record inv_gate (s : st) : Prop := {
-  W1 : forall ch u m, disp_ch (d s) = Some ch -> disp_msg (d s) = Some (u, m) -> is_opn m = true ->
-       active_opener (cs s ch) = true;
-  W2 : rcv_locked s = true -> exists t, active_opener (cs s t) = true }.
-
-Lemma W2_upd : forall (s : st) t c',
-  (rcv_locked s = true -> exists t0, active_opener (cs s t0) = true) ->
-  (active_opener (cs s t) = true -> active_opener c' = true) ->
-  rcv_locked s = true -> exists t0, active_opener (updN (cs s) t c' t0) = true.
-Proof.
-  intros s t c' W A L. destruct (W L) as [t0 X]. destruct (Nat.eqb_spec t0 t) as [->|NE].
-  - exists t. unfold updN. rewrite Nat.eqb_refl. auto.
-  - exists t0. unfold updN. destruct (Nat.eqb_spec t0 t); [contradiction|exact X].
-Qed.
-
-Lemma open_live_active : forall c, is_open_kind c = true -> live c = true -> active_opener c = true.
-Proof. destruct c as [|[] ? ?|[] ? ?|[] ? ?|[] ? ? ?]; cbn; intros; congruence. Qed.
-
-Ltac gate_contra :=
-  match goal with
-  | Hg : negb (disp_holds_opn ?s ?t) = true, A : disp_ch (d ?s) = Some ?t, B : disp_msg (d ?s) = Some (_, ?m), Cn : is_opn ?m = true |- _ =>
-    unfold disp_holds_opn in Hg; revert A B Hg; destruct (d s); cbn; intros A B Hg; inj; try discriminate;
-    rewrite Nat.eqb_refl, Cn in Hg; discriminate
-  end.
-
-Ltac go3 I G :=
-  intros; cbn in *; unfold updN, updZ in *; split_eqb; cbn in *; try congruence; inj;
-  repeat match goal with
-  | H : disp_ch (d _) = Some ?ch, H' : disp_msg (d _) = Some (?u, ?m), H'' : is_opn ?m = true |- _ => learn (W1 _ G ch u m H H' H'')
-  end;
-  sat I; try solve [gate_contra]; rw_cs; cbn in *; inj; try congruence; try discriminate; try tauto; eauto.
-
-Lemma step_inv_gate : forall s e s', inv s -> inv_nl s -> inv_gate s -> gate_ok s e = true ->
-  step false s e = Some s' -> inv_gate s'.
-Proof.
-  intros s e s' I NL G Ok St.
-  destruct e; cbn in St, Ok.
-  - destruct (cs s t) eqn:C; try discriminate. inversion St; subst; clear St.
-    constructor; [go3 I G|]. cbn. apply W2_upd; [exact (W2 _ G)|rewrite C; cbn; discriminate].
-  - destruct (cs s t) eqn:C; try discriminate.
-    destruct (handlers s id) eqn:Hh; inversion St; subst; clear St.
-    + unfold finish. destruct k; constructor; try solve [go3 I G]; cbn; try discriminate.
-      apply W2_upd; [exact (W2 _ G)|rewrite C; cbn; discriminate].
-    + constructor; [go3 I G|]. cbn. apply W2_upd; [exact (W2 _ G)|rewrite C; destruct k; cbn; auto].
-  - destruct (cs s t) eqn:C; try discriminate.
-    destruct ok; inversion St; subst; clear St.
-    + constructor; [go3 I G; destruct k; auto|]. cbn. apply W2_upd; [exact (W2 _ G)|rewrite C; destruct k; cbn; auto].
-    + unfold finish. destruct k; constructor; try solve [go3 I G]; cbn; try discriminate.
-      apply W2_upd; [exact (W2 _ G)|rewrite C; cbn; discriminate].
-  - destruct (cs s t) eqn:C; try discriminate.
-    destruct (slot s t) as [[u m]|] eqn:Sl; try discriminate.
-    inversion St; subst; clear St. unfold finish.
-    destruct k; constructor; try solve [go3 I G]; cbn; try discriminate.
-    apply W2_upd; [exact (W2 _ G)|rewrite C; cbn; discriminate].
-  - unfold give_up in St. destruct (cs s t) eqn:C; try discriminate. inversion St; subst; clear St.
-    unfold finish. destruct k; constructor; try solve [go3 I G]; cbn; try discriminate.
-    apply W2_upd; [exact (W2 _ G)|rewrite C; cbn; discriminate].
-  - unfold give_up in St. destruct (cs s t) eqn:C; try discriminate. inversion St; subst; clear St.
-    unfold finish. destruct k; constructor; try solve [go3 I G]; cbn; try discriminate.
-    apply W2_upd; [exact (W2 _ G)|rewrite C; cbn; discriminate].
-  - destruct (disconnected s); try discriminate.
-    unfold give_up in St. destruct (cs s t) eqn:C; try discriminate. inversion St; subst; clear St.
-    unfold finish. destruct k; constructor; try solve [go3 I G]; cbn; try discriminate.
-    apply W2_upd; [exact (W2 _ G)|rewrite C; cbn; discriminate].
-  - destruct (d s) eqn:Dd; try discriminate. inversion St; subst; clear St.
-    constructor; [go3 I G|]. cbn. exact (W2 _ G).
-  - destruct (d s) eqn:Dd; try discriminate. inversion St; subst; clear St.
-    constructor; [go3 I G|]. cbn. exact (W2 _ G).
-  - destruct (d s) eqn:Dd; try discriminate.
-    destruct (handlers s (m_id m)) eqn:Hh; inversion St; subst; clear St.
-    + constructor; [|cbn; exact (W2 _ G)].
-      intros ch u0 m0 A B Cn. cbn in *. inj. rewrite Cn in Ok.
-      apply open_live_active; [exact Ok | exact (NL _ _ Hh)].
-    + constructor; [go3 I G|]. cbn. exact (W2 _ G).
-  - destruct (d s) eqn:Dd; try discriminate. inversion St; subst; clear St.
-    constructor.
-    + intros ch0 u0 m0 A B Cn. cbn in *. inj. eapply (W1 _ G); [rewrite Dd; reflexivity | rewrite Dd; reflexivity | exact Cn].
-    + cbn. intro L. apply orb_true_iff in L. destruct L as [L|L]; [exact (W2 _ G L)|].
-      exists ch. eapply (W1 _ G); [rewrite Dd; reflexivity | rewrite Dd; reflexivity | exact L].
-  - destruct (d s) eqn:Dd; try discriminate.
-    destruct (slot s ch) eqn:Sl; inversion St; subst; clear St.
-    + constructor; [go3 I G|]. cbn. exact (W2 _ G).
-    + constructor; [go3 I G|]. cbn. exact (W2 _ G).
-  - destruct (d s) eqn:Dd; try discriminate.
-    destruct (rcv_locked s) eqn:L; inversion St; subst; clear St.
-    constructor; [go3 I G|]. cbn. rewrite L. discriminate.
-Qed.
+  B1 : forall t, open_by s = Some t -> active_opener (cs s t) = true;
+  B2 : forall t, active_opener (cs s t) = true -> open_by s = Some t;
+  B3 : open_by s = None -> opening s = None;
+  B4 : rcv_locked s = true -> open_by s <> None }.
 
 Lemma inv_gate_init : forall seed, inv_gate (init seed).
-Proof. intro. constructor; cbn; intros; discriminate. Qed.
+Proof. intro. constructor; cbn; intros; try discriminate; reflexivity. Qed.
 
-Lemma run_gate : forall evs s s', inv s -> inv_nl s -> inv_gate s -> runP gate_ok false evs s = Some s' -> inv_gate s'.
+Ltac go4 G :=
+  intros; cbn in *; unfold updN, updZ in *; split_eqb; cbn in *; try congruence; inj;
+  repeat match goal with
+  | H : open_by _ = Some ?t |- _ => learn (B1 _ G t H)
+  | H : active_opener (cs _ ?t) = true |- _ => learn (B2 _ G t H)
+  end;
+  rw_cs; cbn in *; inj; try congruence; try discriminate; try tauto; eauto.
+
+(* a caller of kind KReq changing its pc, or any dispatcher step that does not lock: nothing changes for the gate *)
+Ltac opener_fact G C :=
+  try (match type of C with cs ?s ?t = _ =>
+         let Y := fresh "Y" in
+         assert (Y : active_opener (cs s t) = true) by (rewrite C; reflexivity); pose proof (B2 _ G _ Y) end).
+
+Lemma step_inv_gate : forall s e s', inv_gate s -> step VNow s e = Some s' -> inv_gate s'.
 Proof.
-  induction evs as [|e r IH]; cbn; intros s s' I NL G R.
-  - inversion R; subst; exact G.
-  - destruct (gate_ok s e) eqn:Ok; try discriminate. destruct (step false s e) eqn:E; try discriminate.
-    eapply IH; [eapply step_inv; eassumption | eapply step_inv_nl; eassumption | eapply step_inv_gate; eassumption | exact R].
+  intros s e s' G St.
+  destruct e; cbn in St.
+  - (* EAlloc *)
+    destruct (cs s t) eqn:C; try discriminate. destruct (open_blocked s k) eqn:OB; try discriminate.
+    inversion St; subst; clear St. destruct k; cbn in OB.
+    + constructor; try solve [go4 G]. exact (B3 _ G). exact (B4 _ G).
+    + destruct (open_by s) eqn:OBy; try discriminate.
+      constructor; cbn; unfold updN.
+      * intros tq H. inversion H; subst. rewrite Nat.eqb_refl. reflexivity.
+      * intros tq H. destruct (Nat.eqb_spec tq t); [subst; reflexivity|]. pose proof (B2 _ G _ H). congruence.
+      * discriminate.
+      * intros _. discriminate.
+  - (* ERegister *)
+    destruct (cs s t) eqn:C; try discriminate.
+    destruct (handlers s id) eqn:Hh; inversion St; subst; clear St.
+    + unfold finish. destruct k; constructor; try solve [go4 G]; cbn; try discriminate; try reflexivity.
+      * exact (B3 _ G).
+      * exact (B4 _ G).
+      * unfold updN. intros tq H. destruct (Nat.eqb_spec tq t); [discriminate|].
+        pose proof (B2 _ G _ H) as X. assert (Y : active_opener (cs s t) = true) by (rewrite C; reflexivity).
+        pose proof (B2 _ G _ Y). congruence.
+    + destruct k; opener_fact G C; constructor; try solve [go4 G]; try exact (B3 _ G); try exact (B4 _ G).
+  - (* EWrite *)
+    destruct (cs s t) eqn:C; try discriminate.
+    destruct ok; cbn in St; inversion St; subst; clear St.
+    + destruct k; opener_fact G C; constructor; try solve [go4 G]; try exact (B3 _ G); try exact (B4 _ G).
+    + unfold finish. destruct k; constructor; try solve [go4 G]; cbn; try discriminate; try reflexivity.
+      * exact (B3 _ G).
+      * exact (B4 _ G).
+      * unfold updN. intros tq H. destruct (Nat.eqb_spec tq t); [discriminate|].
+        pose proof (B2 _ G _ H) as X. assert (Y : active_opener (cs s t) = true) by (rewrite C; reflexivity).
+        pose proof (B2 _ G _ Y). congruence.
+  - (* ETake *)
+    destruct (cs s t) eqn:C; try discriminate.
+    destruct (slot s t) as [[u m]|] eqn:Sl; try discriminate.
+    inversion St; subst; clear St. unfold finish.
+    destruct k; constructor; try solve [go4 G]; cbn; try discriminate; try reflexivity.
+    + exact (B3 _ G).
+    + exact (B4 _ G).
+    + unfold updN. intros tq H. destruct (Nat.eqb_spec tq t); [discriminate|].
+      pose proof (B2 _ G _ H) as X. assert (Y : active_opener (cs s t) = true) by (rewrite C; reflexivity).
+      pose proof (B2 _ G _ Y). congruence.
+  - unfold give_up in St. destruct (cs s t) eqn:C; try discriminate. inversion St; subst; clear St.
+    unfold finish. destruct k; constructor; try solve [go4 G]; cbn; try discriminate; try reflexivity.
+    + exact (B3 _ G).
+    + exact (B4 _ G).
+    + unfold updN. intros tq H. destruct (Nat.eqb_spec tq t); [discriminate|].
+      pose proof (B2 _ G _ H) as X. assert (Y : active_opener (cs s t) = true) by (rewrite C; reflexivity).
+      pose proof (B2 _ G _ Y). congruence.
+  - unfold give_up in St. destruct (cs s t) eqn:C; try discriminate. inversion St; subst; clear St.
+    unfold finish. destruct k; constructor; try solve [go4 G]; cbn; try discriminate; try reflexivity.
+    + exact (B3 _ G).
+    + exact (B4 _ G).
+    + unfold updN. intros tq H. destruct (Nat.eqb_spec tq t); [discriminate|].
+      pose proof (B2 _ G _ H) as X. assert (Y : active_opener (cs s t) = true) by (rewrite C; reflexivity).
+      pose proof (B2 _ G _ Y). congruence.
+  - destruct (disconnected s); try discriminate.
+    unfold give_up in St. destruct (cs s t) eqn:C; try discriminate. inversion St; subst; clear St.
+    unfold finish. destruct k; constructor; try solve [go4 G]; cbn; try discriminate; try reflexivity.
+    + exact (B3 _ G).
+    + exact (B4 _ G).
+    + unfold updN. intros tq H. destruct (Nat.eqb_spec tq t); [discriminate|].
+      pose proof (B2 _ G _ H) as X. assert (Y : active_opener (cs s t) = true) by (rewrite C; reflexivity).
+      pose proof (B2 _ G _ Y). congruence.
+  - destruct (d s) eqn:Dd; try discriminate. inversion St; subst; clear St.
+    constructor; cbn; [exact (B1 _ G)|exact (B2 _ G)|exact (B3 _ G)|exact (B4 _ G)].
+  - destruct (d s) eqn:Dd; try discriminate. inversion St; subst; clear St.
+    constructor; cbn; [exact (B1 _ G)|exact (B2 _ G)|exact (B3 _ G)|exact (B4 _ G)].
+  - destruct (d s) eqn:Dd; try discriminate.
+    destruct (handlers s (m_id m)); inversion St; subst; clear St;
+      (constructor; cbn; [exact (B1 _ G)|exact (B2 _ G)|exact (B3 _ G)|exact (B4 _ G)]).
+  - (* ELock: the only step that locks, and only for the id open() has published *)
+    destruct (d s) eqn:Dd; try discriminate. inversion St; subst; clear St.
+    constructor; cbn; [exact (B1 _ G)|exact (B2 _ G)|exact (B3 _ G)|].
+    intro L. apply orb_true_iff in L. destruct L as [L|L]; [exact (B4 _ G L)|].
+    apply andb_true_iff in L. destruct L as [_ L]. cbn in L.
+    destruct (opening s) eqn:Op; [|discriminate]. intro X. rewrite (B3 _ G X) in Op. discriminate.
+  - destruct (d s) eqn:Dd; try discriminate.
+    destruct (slot s ch); inversion St; subst; clear St;
+      (constructor; cbn; [exact (B1 _ G)|exact (B2 _ G)|exact (B3 _ G)|exact (B4 _ G)]).
+  - destruct (d s) eqn:Dd; try discriminate.
+    destruct (rcv_locked s) eqn:L; inversion St; subst; clear St.
+    constructor; cbn; [exact (B1 _ G)|exact (B2 _ G)|exact (B3 _ G)|]. rewrite L. discriminate.
 Qed.
 
-(* on runs that use the receive gate as intended, the gate is only ever locked while an open() call is in
-   progress; that call unlocks it when it returns, and it can always return (timer_enabled) *)
-Lemma gate_locked_only_while_opening : forall seed s,
-  reachableP gate_ok false seed s -> rcv_locked s = true -> exists t, active_opener (cs s t) = true.
+Lemma reachable_inv_gate : forall P seed s, reachableP P VNow seed s -> inv_gate s.
 Proof.
-  intros seed s [evs R] L.
-  assert (G : inv_gate s).
-  { eapply run_gate; [apply inv_init | | apply inv_gate_init | exact R]. intros k t H; cbn in H; discriminate. }
-  exact (W2 _ G L).
+  intros P seed s [evs R]. revert R. generalize (inv_gate_init seed). generalize (init seed).
+  induction evs as [|e r IH]; cbn; intros s0 G R.
+  - inversion R; subst; exact G.
+  - destruct (P s0 e); try discriminate. destruct (step VNow s0 e) eqn:E; try discriminate.
+    eapply IH; [eapply step_inv_gate; eassumption|exact R].
+Qed.
+
+(* FULL: in every reachable state (every interleaving, every peer) the receive gate is only locked while an open()
+   call is in progress; that call unlocks it when it returns, and it can always return (timer_enabled) *)
+Lemma gate_locked_only_while_opening : forall seed s,
+  reachable VNow seed s -> rcv_locked s = true -> exists t, open_by s = Some t /\ active_opener (cs s t) = true.
+Proof.
+  intros seed s R L. pose proof (reachable_inv_gate _ _ _ R) as G.
+  destruct (open_by s) as [t|] eqn:O; [|exfalso; exact (B4 _ G L O)].
+  exists t. split; [reflexivity|exact (B1 _ G _ O)].
+Qed.
+
+(* hence: with no open() in flight the dispatcher is never stopped at the gate *)
+Lemma gate_open_when_not_opening : forall seed s,
+  reachable VNow seed s -> (forall t, active_opener (cs s t) = false) -> rcv_locked s = false.
+Proof.
+  intros seed s R N. destruct (rcv_locked s) eqn:L; [|reflexivity].
+  destruct (gate_locked_only_while_opening _ _ R L) as (t & _ & A). rewrite N in A. discriminate.
 Qed.
 
 (* ------------------------------------------------------------------ request ids: closed form, distinctness *)
@@ -525,7 +552,7 @@ Proof.
   intros leaky s e s' St. destruct e; cbn in St; auto.
   - destruct (cs s t) eqn:C; try discriminate. destruct (handlers s id); inversion St; subst; clear St;
       unfold finish; try destruct k; cbn; repeat split; intros; unfold updN; split_eqb; try rewrite C; reflexivity.
-  - destruct (cs s t) eqn:C; try discriminate. destruct ok; [|destruct leaky]; inversion St; subst; clear St;
+  - destruct (cs s t) eqn:C; try discriminate. destruct ok; [|destruct (is_leaky leaky)]; inversion St; subst; clear St;
       unfold finish; try destruct k; cbn; repeat split; intros; unfold updN; split_eqb; try rewrite C; reflexivity.
   - destruct (cs s t) eqn:C; try discriminate. destruct (slot s t) as [[u m]|]; try discriminate.
     inversion St; subst; clear St.
@@ -549,8 +576,8 @@ Lemma step_id_stable : forall leaky s e s' t i, step leaky s e = Some s' -> id_o
 Proof.
   intros leaky s e s' t i St H. pose proof (step_frame _ _ _ _ St) as F. destruct e;
     try (destruct F as (F & _); rewrite F; exact H).
-  cbn in St. destruct (cs s t0) eqn:C; try discriminate. inversion St; subst; clear St. cbn. unfold updN.
-  destruct (Nat.eqb_spec t t0); [subst; rewrite C in H; discriminate|exact H].
+  cbn in St. destruct (cs s t0) eqn:C; try discriminate. destruct (open_blocked s k); try discriminate. inversion St; subst; clear St. destruct k; cbn; unfold updN;
+  (destruct (Nat.eqb_spec t t0); [subst; rewrite C in H; discriminate|exact H]).
 Qed.
 
 Record inv_ids (seed : Z) (s : st) : Prop := {
@@ -577,15 +604,13 @@ Lemma step_inv_ids : forall seed leaky s e s', inv_ids seed s -> step leaky s e 
 Proof.
   intros seed leaky s e s' G St. pose proof (step_frame _ _ _ _ St) as F.
   destruct e; try (destruct F as (F1 & F2 & F3 & F4); eapply frame_inv_ids; eassumption).
-  cbn in St. destruct (cs s t) eqn:C; try discriminate. inversion St; subst; clear St.
-  constructor; cbn; unfold updN; intros.
-  - destruct (Nat.eqb_spec t0 t); [subst; cbn in H; inversion H; subst; cbn; rewrite (G3 _ _ G); reflexivity | eapply (G1 _ _ G); eassumption].
-  - destruct (Nat.eqb_spec t0 t); [lia | pose proof (G2 _ _ G _ _ H); lia].
-  - cbn. rewrite (G3 _ _ G). reflexivity.
-  - destruct (Nat.eqb_spec t1 t), (Nat.eqb_spec t2 t); subst; try reflexivity.
-    + pose proof (G2 _ _ G _ _ H0). lia.
-    + pose proof (G2 _ _ G _ _ H). lia.
-    + eapply (G4 _ _ G); eassumption.
+  cbn in St. destruct (cs s t) eqn:C; try discriminate. destruct (open_blocked s k); try discriminate. inversion St; subst; clear St.
+  destruct k; (constructor; cbn; unfold updN;
+    [ intros t0 i H; destruct (Nat.eqb_spec t0 t); [subst; cbn in H; inversion H; subst; cbn; rewrite (G3 _ _ G); reflexivity | eapply (G1 _ _ G); eassumption]
+    | intros t0 i H; destruct (Nat.eqb_spec t0 t); [lia | pose proof (G2 _ _ G _ _ H); lia]
+    | cbn; rewrite (G3 _ _ G); reflexivity
+    | intros t1 t2 i1 i2 H H0 H1; destruct (Nat.eqb_spec t1 t), (Nat.eqb_spec t2 t); subst; try reflexivity;
+      [ pose proof (G2 _ _ G _ _ H0); lia | pose proof (G2 _ _ G _ _ H); lia | eapply (G4 _ _ G); eassumption ] ]).
 Qed.
 
 Lemma reachableP_inv_ids : forall P leaky seed s, reachableP P leaky seed s -> inv_ids seed s.
@@ -631,15 +656,16 @@ Lemma step_holds : forall leaky s e s' m, step leaky s e = Some s' -> holds s' m
 Proof.
   intros leaky s e s' m St Hm. unfold holds in *.
   destruct e; cbn in St.
-  - destruct (cs s t) eqn:C; try discriminate. inversion St; subst; clear St. cbn in *. left.
-    destruct Hm as [X|[X|(tt&kk&ww&ii&rr&uu&X&Y)]]; auto.
-    unfold updN in X. destruct (Nat.eqb_spec tt t); [discriminate|]. right; right. eauto 10.
+  - destruct (cs s t) eqn:C; try discriminate. destruct (open_blocked s k); try discriminate. inversion St; subst; clear St. left.
+    destruct k; cbn in *;
+    (destruct Hm as [X|[X|(tt&kk&ww&ii&rr&uu&X&Y)]]; auto;
+     unfold updN in X; destruct (Nat.eqb_spec tt t); [discriminate|]; right; right; eauto 10).
   - destruct (cs s t) eqn:C; try discriminate.
     destruct (handlers s id); inversion St; subst; clear St; unfold finish in *; try destruct k; cbn in *; left;
       (destruct Hm as [X|[X|(tt&kk&ww&ii&rr&uu&X&Y)]]; auto;
        unfold updN in X; destruct (Nat.eqb_spec tt t); [inversion X; subst; discriminate|]; right; right; eauto 10).
   - destruct (cs s t) eqn:C; try discriminate.
-    destruct ok; [|destruct leaky]; inversion St; subst; clear St; unfold finish in *; try destruct k; cbn in *; left;
+    destruct ok; [|destruct (is_leaky leaky)]; inversion St; subst; clear St; unfold finish in *; try destruct k; cbn in *; left;
       (destruct Hm as [X|[X|(tt&kk&ww&ii&rr&uu&X&Y)]]; auto;
        unfold updN in X; destruct (Nat.eqb_spec tt t); [inversion X; subst; discriminate|]; right; right; eauto 10).
   - destruct (cs s t) as [| | |k w id|] eqn:C; try discriminate. destruct (slot s t) as [[u mm]|] eqn:Sl; try discriminate.
